@@ -73,6 +73,10 @@ CHECKS = {
             "K = 2-4 (thorough: up to 8) driver tasks in one process, each compressing then decompressing its own stream (codecs weighted toward those with package-level tables: TEXT dictionary, CM/TPAQ/FPAQ tables, Huffman, BWT; thorough adds blocks above 4 MiB so the inverse-BWT helper goroutines run), all block tasks of all streams under ONE seeded scheduler plus the hand-off monitor per stream. The worker is built with -race and the simulator's baton is wrapped in runtime.RaceDisable, so the happens-before relation the detector judges is the library's own and the verdict is a function of the (replayable) schedule. Oracle: per instance, compressed and decoded bytes equal those of the same instance run alone; no race report (exit 66 is charged to the case in flight and confirmed by replaying it alone).",
             "The race detector sees only the executions explored (sampling). Race builds are about 8x slower: fewer cases than the other checks.",
             SIM + "K concurrent pipelines under one scheduler, Go race detector with a baton invisible to it, differential oracle against isolated runs"),
+    "C19": ("exploration",
+            "The real CLI (main, argument parsing included) is built from the working tree with the hooks on and run as a child process on tape-generated trees (1-12 files, empty files, sub-directories) with levels 0-9 or explicit -t/-e, -b, -j, -x/-x64, --rm, -f, dir/file/stdin/stdout/output-dir targets. Families: fault-free round trip (scheduler on or off, short reads on the input); safety (existing output without force, output equal to input directly and through a symlink); kill points: the run is first executed fault-free under the in-process seeded scheduler to count its events, then re-executed with the same seed and a self-SIGKILL at event k for every k (runs of <= 120 events) or for k around the application-level points (before/after close and remove, output close) plus random ones - after each kill, every source must still exist intact or its output must decode (library Reader in the parent) to it; sink failure: the wrapped output fails from the k-th write (disk full): exit status != 0, no crash, no source lost.",
+            "SIGKILL model (completed system calls survive; kanzi never calls fsync, so a power-loss model has nothing to check). Kills happen at hook points and at every wrapped output call, not between arbitrary instructions; file-system state only changes at system calls, all of which lie between two such points. The trace of every killed run must be a prefix of the fault-free run (checked: determinism).",
+            SIM + "real CLI under an in-process scheduler, crash (self-SIGKILL) at enumerated/sampled event indexes, disk-full injection, file-system oracle"),
 }
 
 ORDER = ["C01", "C02", "C03", "C04", "C05", "C06", "C07", "C08", "C09", "C10", "C11", "C12", "C13", "C14", "C15", "C16", "C17", "C18", "C19"]
